@@ -198,6 +198,16 @@ def predictProba (ln2pi : α) (d : Nat) (w : List α) (mu : List (List α))
     (pcs : List (List (List α))) (x : List α) : List α :=
   (logRespStable (weightedLogProb ln2pi d w mu pcs x)).2.map Transc.exp
 
+/-- the responsibilities `e_step` hands to `m_step` (`log_resp.mapv(exp)`), one row per observation -/
+def eResp (ln2pi : α) (d : Nat) (w : List α) (mu : List (List α))
+    (pcs : List (List (List α))) (x : List (List α)) : List (List α) :=
+  x.map (predictProba ln2pi d w mu pcs)
+
+/-- one EM iteration as `fit` performs it: `e_step` on the current mixture, then `m_step` -/
+def emStep (thr reg ln2pi : α) (d : Nat) (w : List α) (mu : List (List α))
+    (pcs : List (List (List α))) (x : List (List α)) : Except String (Params α) :=
+  estimateParams thr reg x.length d w.length x (eResp ln2pi d w mu pcs x)
+
 /-- one entry of `predict` -/
 def predict (ln2pi : α) (d : Nat) (w : List α) (mu : List (List α))
     (pcs : List (List (List α))) (x : List α) : Nat :=
